@@ -1231,7 +1231,21 @@ SPACES = {
     '2d_flat': ([-3, -0.5], [3, 0.5], (12, 4)),
     '3d_unit': ([-1, -1, -1], [1, 1, 1], (8, 8, 8)), '3d_tall': ([-1, -1, -2], [1, 1, 2], (8, 8, 8)),
     '3d_off': ([0, -1, 0], [2, 1, 3], (6, 6, 6)), '3d_thin': ([-2, -2, -0.25], [2, 2, 0.25], (8, 8, 2)),
+    # volumes reaching farther from the rotation axis on the NEGATIVE side (the farthest xy
+    # corner is then not max_pt): shifted in x, in y, in both, and with mixed signs
+    '2d_negx': ([-3, -1], [1, 1], (8, 4)), '2d_negy': ([-1, -3], [1, 1], (4, 8)),
+    '2d_negxy': ([-3, -2], [1, 1], (8, 6)), '2d_mixed': ([-0.5, -4], [1.5, 1], (4, 10)),
+    '2d_allneg': ([-3, -2.5], [-1, -0.5], (4, 4)),
+    '3d_negx': ([-3, -1, -1], [1, 1, 2], (8, 4, 6)), '3d_negy': ([-1, -3, -1], [1, 1, 1], (4, 8, 4)),
+    '3d_negxy': ([-3, -2, -2], [1, 1, 1], (8, 6, 6)), '3d_mixed': ([-0.5, -4, -1], [1.5, 1, 0.5], (4, 10, 3)),
 }
+
+
+def _rho(space_name):
+    """Radius of the smallest cylinder around the rotation axis containing the volume
+    (harness side: farthest xy corner)."""
+    lo, hi, _ = SPACES[space_name]
+    return max(math.hypot(x, y) for x in (lo[0], hi[0]) for y in (lo[1], hi[1]))
 
 
 def run_factory(cfg):
@@ -1423,6 +1437,10 @@ def configs(tier):
             cfgs.append({'kind': 'factory', 'factory': 'parallel_beam_geometry', 'space': sp,
                          'num_angles': na, 'det_shape': dsh})
             for radii in ([5.0, 5.0], [3.5, 9.0], [20.0, 0.0], [4.0, 1.0])[:4 if thorough else 2]:
+                if radii[0] <= 1.02 * _rho(sp):
+                    # "src_radius ... Must be larger than the radius of the smallest vertical
+                    # cylinder containing space.domain" (clean ValueError otherwise)
+                    radii = [round(1.5 * _rho(sp), 3), radii[1]]
                 for short in (0, 1):
                     cfgs.append({'kind': 'factory', 'factory': 'cone_beam_geometry', 'space': sp,
                                  'radii': radii, 'short_scan': short, 'num_angles': na,
